@@ -154,12 +154,23 @@ pub struct Runner<'a, S: Sut> {
     mode: Mode,
 }
 
+/// one line, bounded length: panic payloads end up in replay files and machine-read lines
+pub fn one_line(m: &str) -> String {
+    let mut t: String = m.split_whitespace().collect::<Vec<_>>().join(" ");
+    if t.len() > 300 {
+        let cut = t.char_indices().take_while(|(i, _)| *i < 300).last().map(|(i, c)| i + c.len_utf8()).unwrap_or(0);
+        t.truncate(cut);
+        t.push('…');
+    }
+    t
+}
+
 fn catch<T>(f: impl FnOnce() -> T) -> Result<T, String> {
     catch_unwind(AssertUnwindSafe(f)).map_err(|e| {
         if let Some(s) = e.downcast_ref::<&str>() {
-            s.to_string()
+            one_line(s)
         } else if let Some(s) = e.downcast_ref::<String>() {
-            s.clone()
+            one_line(s)
         } else {
             "panic".to_string()
         }
